@@ -463,9 +463,10 @@ class ExprBuilder(ast.NodeTransformer):
     def visit_UnaryOp(self, node: ast.UnaryOp) -> ast.AST:
         # Desugar negated numeric constants into constants
         match node.op, node.operand:
-            case ast.USub(), ast.Constant(value=float(v) | int(v)) as const:
-                const.value = -v
-                return with_loc(node, const)
+            case ast.USub(), ast.Constant(value=float(v) | int(v)):
+                # Create a fresh node: the operand can be shared with another expression
+                # (the middle operand of a chained comparison is visited twice)
+                return with_loc(node, ast.Constant(value=-v))
             case _:
                 return self.generic_visit(node)
 
